@@ -13,8 +13,8 @@ PROPS = {
                        "or alteration is caught at the first bad byte; exploration is the right level because payload x segmentation x carrier is unbounded."),
         "level_note": "Trusts the simify rewrite (audited each build), the simulated socket semantics (blocking stream sockets with bounded buffers, datagram sockets), and sampling; datagram loss is only injected on carriers specified to mask it (KCP).",
         "tiers": {
-            "quick": {"runs": 1500, "chunk": 125, "shrink_s": 40},
-            "thorough": {"runs": 60000, "chunk": 250, "shrink_s": 120},
+            "quick": {"runs": 6000, "chunk": 250, "shrink_s": 40},
+            "thorough": {"runs": 150000, "chunk": 500, "shrink_s": 120},
         },
     },
 }
@@ -32,8 +32,8 @@ PROPS["C02"] = {
                    "requiring every non-paused connection to complete within 30 simulated minutes and never sit 60 s with nothing deliverable while others are open/idle/paused."),
     "level_note": "Trusts simify, simnet socket semantics (bounded buffers give real back-pressure), sampling. Paused readers hold <= 512 KiB, well under the multiplexer's shared 4 MiB buffer the property excludes.",
     "tiers": {
-        "quick": {"runs": 1200, "chunk": 100, "shrink_s": 40},
-        "thorough": {"runs": 40000, "chunk": 200, "shrink_s": 120},
+        "quick": {"runs": 4800, "chunk": 200, "shrink_s": 40},
+        "thorough": {"runs": 120000, "chunk": 400, "shrink_s": 120},
     },
 }
 
@@ -51,8 +51,8 @@ PROPS["C14"] = {
                    "the same log entry 2000 times without blocking (busy loop on a dead session)."),
     "level_note": "Goroutines are attributed by creation site from a runtime stack dump restricted to the run's synctest bubble; sockets are simnet endpoints. CPU use is judged by the spin detector (logging loops) and the orchestrator's watchdog (silent loops), not by timing.",
     "tiers": {
-        "quick": {"runs": 600, "chunk": 50, "shrink_s": 40},
-        "thorough": {"runs": 12000, "chunk": 100, "shrink_s": 120},
+        "quick": {"runs": 1200, "chunk": 50, "shrink_s": 40},
+        "thorough": {"runs": 30000, "chunk": 100, "shrink_s": 120},
     },
 }
 
@@ -67,8 +67,8 @@ PROPS["C17"] = {
                    "sit 90 s with nothing deliverable; a shorter stream, an error instead of end-of-stream, or no termination are distinct rules."),
     "level_note": "Socket model: data and FIN sent before a reset are delivered in order and a reader that has the FIN sees end-of-stream (Linux semantics). Full close only (socketace has no half-close).",
     "tiers": {
-        "quick": {"runs": 2000, "chunk": 125, "shrink_s": 40},
-        "thorough": {"runs": 60000, "chunk": 250, "shrink_s": 120},
+        "quick": {"runs": 8000, "chunk": 250, "shrink_s": 40},
+        "thorough": {"runs": 200000, "chunk": 500, "shrink_s": 120},
     },
 }
 
@@ -83,8 +83,8 @@ PROPS["C03"] = {
                    "target (identified by PRF stream content, so a wrong target is named) or be refused with end-of-stream/reset and no data; every target's accept count must equal the predicted multiset."),
     "level_note": "Fault-free network class only. Requested names are what the client's listener flag syntax can express (it trims surrounding blanks). Duplicate channel names are not generated (the property does not define them).",
     "tiers": {
-        "quick": {"runs": 2000, "chunk": 125, "shrink_s": 40},
-        "thorough": {"runs": 80000, "chunk": 250, "shrink_s": 120},
+        "quick": {"runs": 6000, "chunk": 250, "shrink_s": 40},
+        "thorough": {"runs": 200000, "chunk": 500, "shrink_s": 120},
     },
 }
 
@@ -102,7 +102,7 @@ PROPS["C15"] = {
                    "well-behaved client must complete handshake and a 1 KiB exchange within 60 simulated seconds of connecting while the stalled peers remain connected."),
     "level_note": "Stallers are harness goroutines speaking the real transports (raw sockets, real TLS client, real gorilla websocket client, real KCP session, real DNS-tunnel client handshake). No bound is applied to the stallers themselves.",
     "tiers": {
-        "quick": {"runs": 69 * 6, "chunk": 69, "shrink_s": 40},
+        "quick": {"runs": 69 * 12, "chunk": 69, "shrink_s": 40},
         "thorough": {"runs": 69 * 150, "chunk": 138, "shrink_s": 120},
     },
 }
@@ -110,7 +110,7 @@ PROPS["C15"] = {
 PROPS["C16"] = {
     "level": "exploration",
     "rule": ("each run generates an upstream list of 1-4 entries of kinds {tcp, unix, tcp+tls, ws, udp}, each healthy or failing in one manner {refused, black-holed connect, accepts and stays "
-             "silent, error status, no security while the client requires it}, a listener with forward address {absent, reachable, refused}, 1-3 concurrent local connections, then a history "
+             "silent, silent after the first answer, silent inside the StartTLS handshake, error status, no security while the client requires it}, a listener with forward address {absent, reachable, refused}, 1-3 concurrent local connections, then a history "
              "{none, carrier reset, silent loss, server crash+restart} followed by new local connections; non-trivial = the selection/forward/refusal outcome was judged; distinct = schedule shapes"),
     "probes": ["failover_settled", "forward_direct", "all_failing_refused", "reconnect_ok", "insecure_upstream_skipped", "fault_carrier_reset", "fault_partition", "fault_server_restart"],
     "technique": "deterministic simulation: generated upstream lists x failure modes x session-loss histories, accept-log/physical-connection-count/recovery-bound oracles",
@@ -120,8 +120,8 @@ PROPS["C16"] = {
                    "loss new local connections are served over exactly one new physical connection within the same allowance."),
     "level_note": "Black-holed TCP connects fail after 127 simulated seconds (Linux SYN retry default), which is outside socketace's control. Failing endpoints are scripted listeners; healthy ones are real server endpoints. Silent loss is followed by 95 s so that the keep-alive can notice it.",
     "tiers": {
-        "quick": {"runs": 3000, "chunk": 250, "shrink_s": 40},
-        "thorough": {"runs": 120000, "chunk": 500, "shrink_s": 120},
+        "quick": {"runs": 9000, "chunk": 250, "shrink_s": 40},
+        "thorough": {"runs": 300000, "chunk": 500, "shrink_s": 120},
     },
 }
 
@@ -131,7 +131,7 @@ PROPS["C05"] = {
     "cells": 291,
     "rule": ("the complete matrix {server certificate: trusted+matching, trusted+wrong host, untrusted CA, expired} x {client --insecure on/off} x {client certificate: none, server's CA, foreign CA} x "
              "{requireClientCert on/off} x carrier {TLS socket, HTTPS websocket, StartTLS over socket / websocket / UDP(KCP) / DNS} (288 cells) plus {equal, different, absent} UDP secrets is "
-             "enumerated by run index; per run the upstream is named by host name or IP literal (with a certificate naming exactly that) and delivery segmentation is sampled; non-trivial = the "
+             "enumerated by run index; per run the upstream is named by host name or IP literal (with a certificate naming exactly that), an unreachable decoy upstream naming another host may be listed first (none / tcp+tls / wss / tcp), and delivery segmentation is sampled; non-trivial = the "
              "cell's outcome matched the admit/reject table; distinct = schedule shapes"),
     "probes": ["admitted_as_expected", "rejected_as_expected"],
     "technique": "deterministic simulation: complete authentication matrix under simulated clock (certificate expiry) and network, admit/reject table from the property text, no-application-byte-on-reject oracle",
@@ -139,7 +139,7 @@ PROPS["C05"] = {
                    "(no requirement or client certificate of the server's CA); UDP admits iff secrets equal. On reject no target may accept a connection or receive a byte; on admit a 64-byte exchange must complete."),
     "level_note": "PKI generated deterministically at worker start for the simulated epoch 2000-01-01; 'expired' is produced by the simulated clock. The documented stdio+tls exception is not part of the matrix.",
     "tiers": {
-        "quick": {"runs": 291 * 3, "chunk": 97, "shrink_s": 30},
+        "quick": {"runs": 291 * 6, "chunk": 97, "shrink_s": 30},
         "thorough": {"runs": 291 * 40, "chunk": 291, "shrink_s": 90},
     },
 }
@@ -157,8 +157,8 @@ PROPS["C06"] = {
                    "are identical across segmentations; (3) the worker process survives (a panic is reported as rule 'crash' by the orchestrator)."),
     "level_note": "Handshake code runs directly (socketace.NewServerConnection / NewClientConnection) over a simnet pipe with a scripted peer; no StartTLS certificate on the server side (C04 covers StartTLS).",
     "tiers": {
-        "quick": {"runs": 4000, "chunk": 250, "shrink_s": 30},
-        "thorough": {"runs": 400000, "chunk": 1000, "shrink_s": 90},
+        "quick": {"runs": 12000, "chunk": 500, "shrink_s": 30},
+        "thorough": {"runs": 600000, "chunk": 2000, "shrink_s": 90},
     },
 }
 
@@ -179,7 +179,7 @@ PROPS["C04"] = {
                    "must never let a plaintext client reach a target. Control cells (legitimately plaintext sessions) must show the payload on the wire, which validates the observer."),
     "level_note": "Server-side StartTLS state is observed through the server's own log line; client-side state through ClientConnection.Secure()/SecurityTech() (reached with an injected accessor in the scratch copy only). The scripted server runs real smux + multistream after its fake handshake so that a wrongly trusting client would really send data.",
     "tiers": {
-        "quick": {"runs": 120 * 5, "chunk": 120, "shrink_s": 30},
+        "quick": {"runs": 120 * 15, "chunk": 120, "shrink_s": 30},
         "thorough": {"runs": 120 * 100, "chunk": 240, "shrink_s": 90},
     },
 }
@@ -197,7 +197,7 @@ PROPS["C19"] = {
                    "StreamWrappedConnection is never closed. Histories are sequential, as the property's quantifier says."),
     "level_note": "No clock, network or scheduling is involved in this property; the only fault dimension is the failing underlying resource. The same chooser/shrinker as elsewhere yields minimal histories.",
     "tiers": {
-        "quick": {"runs": 24000, "chunk": 2000, "shrink_s": 20},
+        "quick": {"runs": 96000, "chunk": 4000, "shrink_s": 20},
         "thorough": {"runs": 2400000, "chunk": 20000, "shrink_s": 60},
     },
 }
@@ -218,8 +218,8 @@ PROPS["C07"] = {
                    "no Write may fail and the connection must stay open (losses absorbed by retransmission)."),
     "level_note": "Starting sequence numbers are installed through an accessor injected into the scratch copy only, before any packet or acknowledgement is exchanged. Queue-level runs replace the DNS transport by the driver; connection-level runs use the real transport code over simnet datagrams.",
     "tiers": {
-        "quick": {"runs": 1200, "chunk": 100, "shrink_s": 40, "stall_s": 300},
-        "thorough": {"runs": 40000, "chunk": 200, "shrink_s": 120, "stall_s": 300},
+        "quick": {"runs": 3600, "chunk": 150, "shrink_s": 40, "stall_s": 300},
+        "thorough": {"runs": 80000, "chunk": 300, "shrink_s": 120, "stall_s": 300},
     },
 }
 
@@ -237,8 +237,8 @@ PROPS["C11"] = {
                    "over the same path must arrive intact (PRF prefix/equality) and completely within 40 simulated minutes; a handshake error is an allowed outcome."),
     "level_note": "The path model transforms whole messages (names, sections, sizes); it does not model resolver caching or recursion delays. Handshake failure on a hostile path is never a violation.",
     "tiers": {
-        "quick": {"runs": 600, "chunk": 50, "shrink_s": 40, "stall_s": 300},
-        "thorough": {"runs": 30000, "chunk": 100, "shrink_s": 120, "stall_s": 300},
+        "quick": {"runs": 3000, "chunk": 125, "shrink_s": 40, "stall_s": 300},
+        "thorough": {"runs": 100000, "chunk": 250, "shrink_s": 120, "stall_s": 300},
     },
 }
 
